@@ -8,6 +8,7 @@ import (
 	"encoding/json"
 	"fmt"
 	"strings"
+	"time"
 
 	ipfslog "berty.tech/go-ipfs-log"
 	"berty.tech/go-ipfs-log/entry"
@@ -139,12 +140,17 @@ func (w *World) forge(ctx context.Context, toks []string) {
 	if next == nil {
 		next = []cid.Cid{}
 	}
+	refs := []cid.Cid{}
+	if x, ok := args["xrefs"]; ok {
+		// named in `refs` only (not a parent): Join does not take such an entry out of the heads
+		refs = append(refs, w.entryByName(x).GetHash())
+	}
 	io := w.stores0().IO()
 	data := &entry.Entry{
 		LogID:   w.dbAddr,
 		Payload: w.payloadFor(unhx(args["k"]), unhx(args["v"])),
 		Next:    next,
-		Refs:    []cid.Cid{},
+		Refs:    refs,
 		Clock:   entry.NewLamportClock(att.identity.PublicKey, w.maxTime()+1),
 	}
 	if recipe == "otherlog" {
@@ -296,6 +302,27 @@ func (w *World) inject(ctx context.Context, toks []string) {
 		w.printf("delivered %d quiesce=%v\n", q, ok)
 	case "dc":
 		w.deliverDC(ctx, q, from, payload)
+	case "loadmore":
+		// the public LoadMoreFrom: entries handed straight to the replicator, without Sync's checks
+		var es []ipfslog.Entry
+		out := &iface.MessageExchangeHeads{}
+		_ = json.Unmarshal(payload, out)
+		for _, h := range out.Heads {
+			es = append(es, h)
+		}
+		// (quiescence accounting pairs every Load that returns with a spawn: Sync announces its own)
+		w.mu.Lock()
+		w.acctOf(w.stores[q]).spawned++
+		w.mu.Unlock()
+		done := make(chan struct{})
+		go func() { w.stores[q].LoadMoreFrom(ctx, 0, es); close(done) }()
+		select {
+		case <-done:
+		case <-time.After(w.quiesceTimeout):
+		}
+		ok := w.quiesce(w.stores[q])
+		w.flushLoadEnds(q, w.stores[q])
+		w.printf("loadedmore %d quiesce=%v\n", q, ok)
 	default:
 		var es []ipfslog.Entry
 		out := &iface.MessageExchangeHeads{}
